@@ -3,8 +3,21 @@
    Layers: F = documented format (Format.v), S = abstract spec (Spec/SpecStep), I = model of the Rust (World.step'). *)
 From Coq Require Import List NArith Bool Arith Sorted.
 From Coq Require Import Strings.Byte.
-Require Import BS.Bytes BS.Common BS.Api BS.Layout BS.Format BS.FormatFacts.
+Require Import BS.Bytes BS.Common BS.Api BS.Layout BS.Format BS.FormatFacts BS.Spec BS.SpecStep.
+Require Import BS.FS BS.FSFacts BS.Meta BS.MetaFacts BS.Header BS.Reader BS.ReaderFacts BS.Index BS.Data BS.DataFacts BS.Seek BS.Series BS.SeriesFacts.
 Import ListNotations.
 
-(* theorems for this property are added as the development grows; until then the property is
-   decided by the judge (Layer S/F, extracted) on the implementation and by the correspondence check *)
+(* (I) an accepted append only adds bytes at the end of the data and the index file and touches no
+   other file; (props/C03.v) a refused one returns the file system unchanged *)
+Theorem C16_append_only_adds_bytes : forall fs s p hdr ihdr l ts pay fs' s',
+  RepH fs s p hdr ihdr l -> (ts < 2^64)%N -> push_line s ts pay fs = (fs', Ok s') ->
+  exists dtail itail,
+    fs_get fs' (of_name (d_file (s_data s))) = option_map (fun c => c ++ dtail) (fs_get fs (of_name (d_file (s_data s))))
+    /\ fs_get fs' (of_name (ix_file (d_index (s_data s)))) = option_map (fun c => c ++ itail) (fs_get fs (of_name (ix_file (d_index (s_data s)))))
+    /\ (forall g, g <> of_name (d_file (s_data s)) -> g <> of_name (ix_file (d_index (s_data s))) -> fs_get fs' g = fs_get fs g).
+Proof. exact push_line_appends. Qed.
+Print Assumptions C16_append_only_adds_bytes.
+(* partial: series with caches (ds_process) and "reads never write" for the reading operations are
+   not proved yet (in the model reads thread the file system through read-only primitives; the
+   statement needs one lemma per reading operation). Covered by the judge: every file is compared
+   with its expected content after every operation. *)
